@@ -57,11 +57,16 @@ C16)
   instr $REPO/machine/prims.go=sync,time,chan,go $PRIM/prims.go=sync,time,chan,go
   build "$W/bin" ./cmd/$LC -overlay "$W/ov.json" || exit 3
   ;;
+C18)
+  build "$W/bin" ./cmd/$LC || exit 3
+  (cd $REPO && go build -o "$W/test_gen" ./cmd/test_gen) || { echo "harness error: test_gen does not build" >&2; exit 3; }
+  EXTRA_ARGS="-bin $W/test_gen"
+  ;;
 *) echo "unknown property $ID" >&2; exit 3;;
 esac
 
 if [ "$MODE" = "--replay" ]; then
-  "$W/bin" -replay "$ARG"; exit $?
+  "$W/bin" ${EXTRA_ARGS:-} -replay "$ARG"; exit $?
 fi
-"$W/bin" -tier "$MODE"
+"$W/bin" ${EXTRA_ARGS:-} -tier "$MODE"
 exit $?
